@@ -219,6 +219,14 @@ Theorem C05_obs_ops_left_domain :
   map (fun r => match r with (op, l, lp, _, _) => (op, l, lp) end) obs_ops_left = opl_rows.
 Proof. exact obs_ops_left_domain. Qed.
 
+(* other spellings of a literal and a header sub-field as right operand (domain: op_rows x lit_variants) *)
+Theorem C05_op_variants_eq_base : forall op lty lint interp i vid t f,
+  In (op, lty, lint, interp) obs_op_variants -> In (i, vid, t, f) lit_variants ->
+  lint_op_model op lty t f = N.testbit lint i /\ interp_op_model op lty t f = N.testbit interp i.
+Proof. exact op_variants_eq_base. Qed.
+Theorem C05_obs_op_variants_domain : map obs_op_key obs_op_variants = op_rows.
+Proof. exact obs_op_variants_domain. Qed.
+
 (* ---- scopes obtained by the linter's CALL-GRAPH INFERENCE (no @scope annotation): the use in the innermost of
    1..3 un-annotated helpers called from every pair (thorough tier: also every triple, depth 2) of lifecycle
    subroutines.  Domain: inferred_rows (representatives of every accessor class / function scope mask in the quick
@@ -310,6 +318,8 @@ Print Assumptions C05_lint_sub_interp_coerce_models.
 Print Assumptions C05_lint_sub_interp_coerce_refuted.
 Print Assumptions C05_ops_left_models_eq_observed.
 Print Assumptions C05_obs_ops_left_domain.
+Print Assumptions C05_op_variants_eq_base.
+Print Assumptions C05_obs_op_variants_domain.
 Print Assumptions C05_obs_inferred_domain.
 Print Assumptions C05_lint_inferred_eq_model.
 Print Assumptions C05_lint_inferred3_eq_model.
